@@ -913,6 +913,83 @@ def storage_stage(chk, M, specs):
     eval_cases(chk, "state_file", "model * json", rows, ["state_case_ok"], ["state_file_json m ~ object in the state file"])
 
 
+def storage_fault_stage(chk, M, specs):
+    """The state-file wire under I/O faults: with a good state file present, storage.dump of a new
+    state with an OSError injected at the gzip write, flush, fsync or rename.  dump may raise, but
+    what is on disk afterwards must decode (storage.load) to a state equal to the old or the new."""
+    import errno
+    import gzip as gzip_mod
+    import os
+    from unittest import mock
+
+    from mopidy.internal import models as IM
+    from mopidy.internal import storage
+
+    tls = [s for s in specs if s["cls"] == "TlTrack"][:6] or [FULL_SPECS["TlTrack"]]
+
+    def state(group, version):
+        return IM.StoredState(version=version, state=IM.CoreState(
+            tracklist=IM.TracklistState(tl_tracks=[build(M, s) for s in group], next_tlid=1)))
+
+    old, new = state(tls[:2], "old"), state(tls[2:] or tls[:1], "new")
+    enospc = OSError(errno.ENOSPC, "No space left on device")
+    real_write = gzip_mod.GzipFile.write
+
+    def partial_write(self, data):
+        real_write(self, data[: len(data) // 2])
+        raise enospc
+
+    real_named_temporary_file = tempfile.NamedTemporaryFile
+
+    def failing_flush_tempfile(*args, **kwargs):
+        tmp = real_named_temporary_file(*args, **kwargs)
+        tmp.flush = mock.Mock(side_effect=enospc)
+        return tmp
+
+    faults = {
+        "write": lambda: mock.patch.object(gzip_mod.GzipFile, "write", partial_write),
+        "write_nothing": lambda: mock.patch.object(gzip_mod.GzipFile, "write", mock.Mock(side_effect=enospc)),
+        "flush": lambda: mock.patch.object(storage.tempfile, "NamedTemporaryFile", failing_flush_tempfile),
+        "fsync": lambda: mock.patch.object(os, "fsync", mock.Mock(side_effect=OSError(errno.EIO, "Input/output error"))),
+        "rename": lambda: mock.patch.object(pathlib.Path, "rename", mock.Mock(side_effect=OSError(errno.EACCES, "Permission denied"))),
+        "none": lambda: mock.patch.object(os, "getpid", os.getpid),
+    }
+    import logging
+
+    logging.getLogger("mopidy.internal.storage").setLevel(logging.CRITICAL)
+    tmpdir = pathlib.Path(tempfile.mkdtemp(prefix="verif-c08-fault-"))
+    try:
+        for name, patcher in faults.items():
+            path = tmpdir / f"state-{name}.json.gz"
+            storage.dump(path, old)
+            case = {"fault": name, "old_version": "old", "new_version": "new"}
+            chk.count(1, nontrivial_key="storage_fault:" + name)
+            chk.dist("storage_fault:" + name)
+            raised = None
+            with patcher():
+                try:
+                    storage.dump(path, new)
+                except OSError as exc:
+                    raised = exc
+                except Exception as exc:  # noqa: BLE001
+                    chk.monitor_failure("roundtrip", {"wire": "state_file", "fault": name, "what": "exception"},
+                                        f"storage.dump raised {type(exc).__name__} under an injected OSError", case)
+                    continue
+            try:
+                loaded = storage.load(path)
+            except Exception as exc:  # noqa: BLE001
+                loaded = exc
+            if not (loaded == old or loaded == new):
+                chk.monitor_failure("roundtrip", {"wire": "state_file", "fault": name, "what": "undecodable_after_fault"},
+                                    f"after an OSError at {name} in storage.dump the state file decodes to neither the old nor the "
+                                    f"new state (load -> {type(loaded).__name__})", case)
+            if name == "none" and (raised is not None or loaded != new):
+                chk.monitor_failure("roundtrip", {"wire": "state_file", "fault": name, "what": "plain_dump"},
+                                    "a dump without faults did not store the new state", case)
+    finally:
+        shutil.rmtree(tmpdir, ignore_errors=True)
+
+
 def digit_table_stage(chk, M):
     """The Unicode decimal-digit table of Models.v (nd_starts) against pydantic's date pattern:
     exhaustive over all code points in the thorough tier (a finite domain), sampled otherwise."""
@@ -1138,7 +1215,8 @@ def run(chk):
     for name, stage in (("digit_table", lambda: digit_table_stage(chk, M)), ("model", lambda: model_stage(chk, M, specs)),
                         ("constraint", lambda: constraint_stage(chk, M)), ("rpc", lambda: rpc_stage(chk, M, jsonrpc, specs)),
                         ("malformed", lambda: malformed_stage(chk, M, jsonrpc)), ("values", lambda: values_stage(chk, M, specs)),
-                        ("event", lambda: event_stage(chk, M, specs)), ("storage", lambda: storage_stage(chk, M, specs))):
+                        ("event", lambda: event_stage(chk, M, specs)), ("storage", lambda: storage_stage(chk, M, specs)),
+                        ("storage_fault", lambda: storage_fault_stage(chk, M, specs))):
         t0 = time.time()
         stage()
         chk.notes.append(f"stage {name}: {time.time() - t0:.1f} s")
